@@ -1885,11 +1885,21 @@ class C07(Family):
     # control/iosys.py and control/nlsys.py of the tree under check and proved equal to the model
     extra_modules = ["CtrlVerif.Props.C07GenParse", "CtrlVerif.Props.C07GenInit", "CtrlVerif.Props.C07GenOps",
                      "CtrlVerif.Props.C07GenStatic", "CtrlVerif.Props.C07Gen"]
+    # >>> py2lean-interconnect (notes/NOTES-py2lean-interconnect.md): Generated/ICX*.lean (signal look-up, pre-processing of interconnect())
+    extra_modules = extra_modules + ["CtrlVerif.Props.C07GenXFind", "CtrlVerif.Props.C07GenXPre", "CtrlVerif.Props.C07GenXConn",
+                                     "CtrlVerif.Props.C07GenX"]
+    # <<< py2lean-interconnect
 
     def pre_build(self):
         import os
         from core import py2lean_ic, leanproj
         problems, self.gen_info = py2lean_ic.regenerate(os.environ.get("VERIF_REPO") or "/repo", leanproj.LEAN)
+        # >>> py2lean-interconnect
+        from core import py2lean_icx
+        problems_x, info_x = py2lean_icx.regenerate(os.environ.get("VERIF_REPO") or "/repo", leanproj.LEAN)
+        problems = problems + problems_x
+        self.gen_info.update(info_x)
+        # <<< py2lean-interconnect
         return problems
     # <<< py2lean-ic
     externals = ["numpy array arithmetic (matmul, +=) inside _compute_static_io / linearize",
